@@ -1,0 +1,115 @@
+//go:build verif
+
+package promapi
+
+import (
+	"reflect"
+	"runtime"
+	"strconv"
+	"sync/atomic"
+)
+
+// Verification hooks (build tag verif only). With the tag off hooks_noverif.go provides empty,
+// inlineable twins, so the shipped program is unchanged.
+//
+// A tracer installed with SetVerifTracer is called at the linearisation points of the client:
+//
+//	want    partitionLocker.lock entered (outside the mutex; the tracer may block here = gate)
+//	lock    key inserted into partitionLocker.s   (under the locker's mutex: must not block)
+//	unlock  key removed from partitionLocker.s    (under the locker's mutex: must not block)
+//	enq     caller is about to send the job to prom.queries (may block)
+//	got     caller received the job's result (may block)
+//	deq     worker received a job from prom.queries (may block)
+//	hit / miss / set / evict   queryCache get / set / gc (under the cache mutex: must not block)
+//	start   worker is about to run the HTTP request (may block)
+//	end-ok / end-err   HTTP request finished (may block)
+//	reply   processJob returns; the worker is about to send the result to the caller (may block)
+//
+// Every event carries a per-process sequence number taken before the tracer runs, so events
+// emitted under one mutex are numbered in their linearisation order.
+type VerifEvent struct {
+	Ev  string
+	Key string // lock key (want/lock/unlock/enq/got) or "<endpoint>#<cache key>" (the others)
+	Job string // identity of the job's result channel ("" when not applicable)
+	Seq uint64
+	G   uint64 // goroutine id of the actor
+}
+
+var (
+	verifSeq    atomic.Uint64
+	verifTracer atomic.Pointer[func(VerifEvent)]
+)
+
+// SetVerifTracer installs (or, with nil, removes) the tracer. Install it before StartWorkers.
+func SetVerifTracer(f func(VerifEvent)) {
+	if f == nil {
+		verifTracer.Store(nil)
+		return
+	}
+	verifTracer.Store(&f)
+}
+
+// VerifNextSeq hands out a number from the same sequence (for observers outside the package).
+func VerifNextSeq() uint64 { return verifSeq.Add(1) }
+
+func verifGoid() uint64 {
+	var buf [64]byte
+	b := buf[:runtime.Stack(buf[:], false)]
+	// "goroutine 123 [running]:..."
+	var n uint64
+	for _, c := range b[len("goroutine "):] {
+		if c < '0' || c > '9' {
+			break
+		}
+		n = n*10 + uint64(c-'0')
+	}
+	return n
+}
+
+func verifJobID(ch chan queryResult) string {
+	if ch == nil {
+		return ""
+	}
+	return strconv.FormatUint(uint64(reflect.ValueOf(ch).Pointer()), 16)
+}
+
+func verifEmit(ev, key, job string) {
+	p := verifTracer.Load()
+	if p == nil {
+		return
+	}
+	(*p)(VerifEvent{Seq: verifSeq.Add(1), G: verifGoid(), Ev: ev, Key: key, Job: job})
+}
+
+func verifTrace(ev, key string, job chan queryResult) {
+	if verifTracer.Load() == nil {
+		return
+	}
+	verifEmit(ev, key, verifJobID(job))
+}
+
+func verifCacheKey(endpoint string, key uint64) string {
+	return endpoint + "#" + strconv.FormatUint(key, 16)
+}
+
+func verifJob(ev string, job queryRequest) {
+	if verifTracer.Load() == nil {
+		return
+	}
+	verifEmit(ev, verifCacheKey(job.query.Endpoint(), job.query.CacheKey()), verifJobID(job.result))
+}
+
+func verifJobEnd(job queryRequest, err error) {
+	if err != nil {
+		verifJob("end-err", job)
+		return
+	}
+	verifJob("end-ok", job)
+}
+
+func verifCache(ev string, key uint64) {
+	if verifTracer.Load() == nil {
+		return
+	}
+	verifEmit(ev, verifCacheKey("", key), "")
+}
